@@ -54,7 +54,7 @@ var atoms = []ref.RuleAtom{
 	{Name: "additionalProperties"}, {Name: "allOf"}, {Name: "allOf", Variant: "empty-parent"}, {Name: "enum"}, {Name: "or"}, {Name: "or", Variant: "disordered-set"}, {Name: "or", Variant: "ordered-set"}, {Name: "or", Variant: "format-with-length-set"}, {Name: "or", Variant: "ref-nullable-set"}, {Name: "or", Variant: "ref-optional-set"},
 	{Name: "or", Variant: "exclusive-empty-set"}, {Name: "or", Variant: "exclusive-ok-set"}, {Name: "or", Variant: "foreign-kind-set"}, {Name: "or", Variant: "foreign-rule-same-kind-set"}, {Name: "or", Variant: "huge-length-set"},
 	{Name: "minLength", Variant: "huge"}, {Name: "minItems", Variant: "huge"}, {Name: "precision", Variant: "huge"},
-	{Name: "type", Variant: "kind"}, {Name: "type", Variant: "any"}, {Name: "type", Variant: "ref"}, {Name: "type", Variant: "decimal"}, {Name: "type", Variant: "date"},
+	{Name: "type", Variant: "kind"}, {Name: "type", Variant: "any"}, {Name: "type", Variant: "ref"}, {Name: "type", Variant: "decimal"}, {Name: "type", Variant: "date"}, {Name: "type", Variant: "mixed"}, {Name: "type", Variant: "mixed-again"},
 	{Name: "optional", Variant: "true"}, {Name: "optional", Variant: "false"}, {Name: "nullable", Variant: "true"}, {Name: "nullable", Variant: "false"},
 	{Name: "const", Variant: "true"}, {Name: "const", Variant: "false"}, {Name: "foo"},
 }
@@ -107,6 +107,11 @@ func build(c Case) (*ref.SNode, []ref.RuleAtom, bool) {
 		n.Kind, n.Lit, n.Tok = ref.SLit, ref.KNull, "null"
 	case ref.NKRef:
 		n.Kind, n.Names = ref.SRef, []string{"@t"}
+		for _, a := range c.Rules {
+			if a.Name == "type" && strings.HasPrefix(a.Variant, "mixed") {
+				n.Names = []string{"@t", "@tstring"} // "mixed" is the type of a list of types
+			}
+		}
 	}
 	frac := ""
 	if c.Kind == ref.NKFloat {
@@ -253,6 +258,11 @@ func build(c Case) (*ref.SNode, []ref.RuleAtom, bool) {
 				} else {
 					r.Tok = `"@t` + kindName(c.Kind) + `"`
 				}
+			case "mixed", "mixed-again": // what a list of types written as a shortcut stands for
+				if c.Kind != ref.NKRef {
+					return nil, nil, false
+				}
+				r.Tok = `"mixed"`
 			case "decimal":
 				r.Tok = `"decimal"`
 			case "date":
@@ -357,6 +367,9 @@ func checkAllOrders(t run.TB, c Case, allPerms bool) (judged bool) {
 		if res.Panic != "" {
 			run.Fail(t, chk, pc, "Check panicked on %q: %s", schema, res.Panic)
 		}
+		if judged && acc && !want && twoMixedTypeRules(pc) && run.MatchKnown("C08-type-mixed-twice-on-a-type-list") {
+			return false
+		}
 		if judged && acc != want {
 			run.Fail(t, chk, pc, "Check(%q) accepted=%v (%v); the applicability clauses say accept=%v (%s)", schema, acc, res, want, why)
 		}
@@ -386,6 +399,9 @@ func checkAllOrders(t run.TB, c Case, allPerms bool) (judged bool) {
 			if shortcutWithManualTypeRules(pc) && run.MatchKnown("C08-type-shortcut-with-manual-type-and-or-order") {
 				return false
 			}
+			if twoMixedTypeRules(pc) && run.MatchKnown("C08-type-mixed-twice-on-a-type-list") {
+				return false
+			}
 			run.Fail(t, chk, pc, "verdict depends on rule order: %q accepted=%v but %q accepted=%v (%v)", firstOrder, *first, schema, acc, res)
 		}
 		if acc {
@@ -402,6 +418,20 @@ func checkAllOrders(t run.TB, c Case, allPerms bool) (judged bool) {
 
 // shortcutWithManualTypeRules: narrow matcher of the recorded finding – a type shortcut (@t)
 // annotated with both a manual `type` rule and an `or` rule.
+// twoMixedTypeRules: the recorded finding - a list of types with the rule type: "mixed" written twice.
+func twoMixedTypeRules(c Case) bool {
+	n, mixed := 0, 0
+	for _, r := range c.Rules {
+		if r.Name == "type" {
+			n++
+			if strings.HasPrefix(r.Variant, "mixed") {
+				mixed++
+			}
+		}
+	}
+	return c.Kind == ref.NKRef && n >= 2 && mixed >= 1
+}
+
 func shortcutWithManualTypeRules(c Case) bool {
 	hasType, hasOr := false, false
 	for _, r := range c.Rules {
